@@ -267,6 +267,27 @@ def run(ctx):
             if fid in P:
                 hits.append(key)
     ctx.ob("R4", "FINDING-class panic sites reachable from producers", not hits, "%d" % len(hits) if not hits else "a panic on a walker thread is never joined: the consumer blocks forever: %s" % hits[:3])
+    # …and no panic site nobody has reviewed: the C11 site enumeration restricted to producer-reachable functions (a slice of the file's
+    # text at a computed offset, an unwrap on something the file decides — one such file takes the walker thread down and with it the
+    # findings of every other file)
+    from ..core import Ctx
+    sub = ctx.prog.__dict__.get("_c11_sub")
+    if sub is None:
+        sub = Ctx("C11", ctx.tier, prog)
+        c11.run(sub)
+        ctx.prog.__dict__["_c11_sub"] = sub
+    n_sites = 0
+    for o in sub.obligations:
+        if o["rule"] != "R1":
+            continue
+        fid = o["key"].split(":", 1)[1].split(" | ")[0]
+        if fid not in P:
+            continue
+        n_sites += 1
+        if not o["ok"] and "not in the reviewed table" in o["detail"]:
+            ctx.ob("R4", "unreviewed panic site in a producer: " + o["key"].split(":", 1)[1], False,
+                   "a panic on a walker thread is never joined (the consumer blocks forever / the other files' findings are lost): " + o["detail"], where=o.get("where"))
+    ctx.floor("R4", "panic sites in producer-reachable functions (reviewed in tables/panic_sites.json)", n_sites, 120)
 
     r5(ctx, P)
     r6(ctx, P)
